@@ -284,7 +284,7 @@ def fsm_outcome_key(rep, c):
 # for, the check fails (a generator that silently stops reaching its region would otherwise look like a pass).
 # ------------------------------------------------------------------------------------------
 EXTRA_CLASSES = {
-    "C03": ["keyheavy", "allocfail", "restart"],
+    "C03": ["keyheavy", "allocfail", "restart", "hugeundo"],
     "C04": ["keyheavy", "restart"],
     "C05": ["restart", "livestop"],
     "C07": ["restart", "livestop", "foreign"],
@@ -506,6 +506,20 @@ def extra_classes(pid, tier, exe, drv, run_model, fsm_done):
         stats["allocfail"] = st
         if st["refused"] < 10 or not st["reloads"]:
             gates.append(("allocfail", "fewer than 10 synchronisations ran with a refused allocation (%d), or no reload among them" % st["refused"]))
+
+    if "hugeundo" in classes:
+        r = vlib.rng(pid + "/hugeundo")
+        cases = [rtrgen.gen_hugeundo_case(r, "pfx")] + ([rtrgen.gen_hugeundo_case(r, "key")] if tier != "quick" else [rtrgen.gen_hugeundo_case(r, "key", n=65536)])
+        st = {"cases": len(cases), "pdus": [c.meta["n"] for c in cases], "refused_and_undone": 0}
+        for c, irep in impl(cases, sync_multi_oracle):
+            ri = c.ops.index("run sync")
+            tr = rtroracle.Trace(irep[ri])
+            after = irep[ri + 2]
+            st["refused_and_undone"] += (tr.ret is not None and tr.ret != 0 and len(after) <= 8)
+        stats["hugeundo"] = st
+        if st["refused_and_undone"] < len(cases):
+            gates.append(("hugeundo", "an incremental response of more than 2^16 PDUs followed by a refused PDU did not end in a refused "
+                          "exchange with the earlier table contents (%d of %d)" % (st["refused_and_undone"], len(cases))))
 
     if "restart" in classes:
         n = EXTRA_N["restart"][T]
